@@ -256,7 +256,7 @@ def make_judge(chk: Check):
                         exp_tag = classes[owner].tag(m)
                         if tags and tags[0] != exp_tag:
                             viols.append(Viol("wrong-definition-shown", where, {"class": cname, "member": m, "shown_tag": tags[0], "expected_tag": exp_tag}))
-                chk.case_ok(f"{where}:{case.meta['kinds'].get(owner, {}).get(m, '?')}")
+                chk.case_ok(f"{where}:{case.meta['kinds'].get(owner, {}).get(m, '?')}", ident=(case.cid, cname, m))
             extra = [m for m in members if m not in t["winner_mro"] and not m.startswith("_")]
             if extra:
                 viols.append(Viol("unexpected-member", shape, {"class": cname, "members": extra}))
